@@ -159,6 +159,19 @@ CLAIMED["C05"] = dict(engine="roundtrip", design="4 C05",
         "hypothesis and reported as KNOWN-FINDING; block_separator/indent must be whitespace-only (stated in the theorem); model "
         "hand-written, tied by correspondence; extraction cross-checked by vm_compute",
    technique="Coq proof (writer output is the rendering of a well-formed grammar AST; C02 applied twice) + differential correspondence via extracted model")
+
+CLAIMED["C12"] = dict(engine="names", design="4 C12",
+  text="Coq theorems over a faithful model of split_multiple_persons_names: conservation for ALL strings (segment invariant over the fold), equality with an independent word-level reference splitter, the protection corollary and merge+split idempotence for ALL brace-balanced strings; tied to /repo by bounded-exhaustive differential correspondence (function and SeparateCoAuthors/MergeCoAuthors) and an independent Python oracle.",
+  note="idempotence on unbalanced strings is tested (oracle on every run), not proved; model hand-written, tied by correspondence; whitespace sets regenerated from the running module; extraction cross-checked by vm_compute",
+  technique="Coq proof (fold invariants, backward simulation against word-level spec) + differential correspondence via extracted model")
+CLAIMED["C13"] = dict(engine="names", design="4 C13",
+  text="Coq theorem that strict parse_single_name_into_parts IS the compositional transcription of BibTeX's algorithm (atoms/sections/words/word_case/partition) for ALL strings, that InvalidNameError is raised exactly for unbalanced braces / >2 commas / trailing comma, words-once, Last keeps the final word, strict only adds errors, and SplitNameParts never raises but returns a MiddlewareErrorBlock retaining the entry; spec and Python oracle validated on the repo's 149+11 BibTeX-derived cases at every run.",
+  note="isalpha/isupper enter as per-character flags (theorems hold for any flag assignment); whitespace sets regenerated from the running module and their facts re-proved by vm_compute at every build",
+  technique="Coq proof (register/atom simulation, slice arithmetic by lia) + differential correspondence via extracted model incl. the Coq spec itself")
+CLAIMED["C14"] = dict(engine="names", design="4 C14",
+  text="Coq theorems for ALL strings: person-level inverse split1(merge1 p)=p for valid names with non-empty last and no word ending in an odd number of backslashes (through the real tokeniser), the list-level law outside the known class K3 (through the real co-author splitter, using C12_exact), reduction of the four-middleware round trip to it, and the refutation witness for K3; the full parse_string/write_string stack is additionally exercised by differential correspondence and the Python oracle on every run.",
+  note="K3 open known finding (KNOWN-FINDING line); the writer/parser legs of the stack are C05/C10's subject and are tested here, not proved; stack stream reads names back from write_string output with the plain parse stack",
+  technique="Coq proof + differential correspondence (function pair, list chain, full stack)")
 PENDING = {}
 
 def main():
